@@ -4,6 +4,7 @@ Configuring and executing emulator instances for guppy programs.
 
 from __future__ import annotations
 
+import copy
 from collections.abc import Iterator
 from dataclasses import dataclass, field, replace
 from typing import TYPE_CHECKING, Any, cast
@@ -174,7 +175,11 @@ class EmulatorInstance:
     def with_seed(self, value: int | None) -> Self:
         """Set the random seed for the emulator instance.
         Defaults to None."""
-        new_options = replace(self._options, _seed=value)
+        # The simulator object carries its own seed: copy it so that configurations
+        # derived earlier (which share the simulator) keep theirs
+        new_options = replace(
+            self._options, _seed=value, _simulator=copy.copy(self._options._simulator)
+        )
         # TODO flaky stateful, remove when selene simplifies
         new_options._simulator.random_seed = value
         out = replace(self, _options=new_options)
